@@ -36,4 +36,29 @@ PROPS = {
                         "`/` accepts both float(a)/float(b) and the correctly rounded exact quotient"],
         'must_observe': ['grid_rows'],
     },
+    'C14': {
+        'level': 'exploration',
+        'technique': "offline checker using Python's own list/str slice semantics over a recorded event log of real renders; complete grid of lengths x parameter triples",
+        'claim': 'For lengths 0-8 and 12, arrays and multi-byte strings, every index and every (start, stop, step) triple over a parameter set '
+                 '{absent, 0, +-1..+-(len+2), +-100, i64/i128 extremes, u64/u128 values} is rendered through the matching syntactic form and compared with '
+                 "Python's answer; character-wise string operations (length, reverse, truncate, iteration, index, slices) on random hostile Unicode strings are compared with "
+                 'Python code-point semantics. The grid is complete, so a break of clamping, sign handling or byte/char confusion shows within one run.',
+        'note': "trusts CPython list/str slicing; undefined is observed through `| default`; a slice parameter above i128::MAX may be an error (engine integers are i128) but never a wrong selection; the undocumented spellings `x.0` and `x[a:b:]` are not generated",
+        'oracle': 'o_slices',
+        'rule': "one evaluation = one render of an index/slice/string-operation template; a cell = (record type, container kind, length, syntactic form, spelling, "
+                "sign/bound class of each parameter relative to the length); the grid part is enumerated completely in both tiers",
+        'exhaustive': 'lengths {0..8,12} x {array,string} x all parameter triples of the set; random part (literal spellings, none-as-absent, chained slices, string operations) is sampled',
+        'must_observe': ['grid_cells_completed'],
+    },
+    'C20': {
+        'level': 'exploration',
+        'technique': "offline checker using Python's base64, urllib.parse, json and re over a recorded event log of real renders with the contrib filters registered",
+        'claim': 'Every single ASCII byte, punctuation runs, strings of all planes, lengths mod 3 and 3-12 kB strings go through all 9 spellings of the b64 options, the round trip, '
+                 'both urlencode forms, slug and json_encode (random values of every kind without non-finite floats); the decoder is also fed well-formed and malformed text. '
+                 'Python decides alphabet, padding, losslessness, JSON validity and data equality (type-aware, big integers exact).',
+        'note': "trusts CPython's base64/urllib/json; for the decoder, non-canonical trailing bits / partial padding may be accepted or rejected, but a bad character, an impossible length or a non-UTF-8 payload must be an error; JSON maps whose stringified keys collide are not generated",
+        'oracle': 'o_codecs',
+        'rule': "one evaluation = one render of a codec template; a cell = (filter and option spelling, input class [empty/alnum/ascii-punct/unicode/long], length mod 3 or 4, accepted/rejected, value kind and depth for json)",
+        'must_observe': [],
+    },
 }
